@@ -129,7 +129,8 @@ def run(ctx):
     trys = [t for t in walk_no_nested(setf) if isinstance(t, ast.Try)]
     ok = False
     for t in trys:
-        body_src = " ".join(unparse(s) for s in t.body)
+        from sa.guards import resolved as _resolved
+        body_src = " ".join(unparse(_resolved(setf, s_)) if isinstance(s_, ast.Expr) else unparse(s_) for s_ in t.body)
         if "int(str(" in body_src:
             hs = [unparse(h.type) if h.type is not None else "<bare>" for h in t.handlers]
             raises = [r for h in t.handlers for r in walk_no_nested(h) if isinstance(r, ast.Raise)]
@@ -171,32 +172,44 @@ def run(ctx):
     g = CFG(setf)
     stores = [n.id for n in g.nodes if n.kind == "stmt" and isinstance(n.ast, ast.Assign)
               and any(isinstance(t, ast.Subscript) and unparse(t.value) == "self.tags" for t in n.ast.targets)]
-    if len(stores) != 1:
-        raise AnalysisError(f"set(): expected one store into self.tags, found {len(stores)}")
-    store = stores[0]
-    dup_tests = [n.id for n in g.nodes if n.kind == "test" and "replace" in unparse(n.ast) and "in self.tags" in unparse(n.ast)]
+    if not stores:
+        raise AnalysisError("set(): no store into self.tags found")
+    store = stores[-1]
     cls_tests = [n.id for n in g.nodes if n.kind == "test" and unparse(n.ast).startswith("_isclass(")]
-    ok = False
-    if dup_tests and cls_tests:
-        # the duplicate test must raise on its true edge
-        t = dup_tests[0]
-        true_succ = [d for d, lab in g.succs(t, exc=False) if lab == "true"]
-        raises_dup = bool(true_succ) and isinstance(g.nodes[true_succ[0]].ast, ast.Raise) and "DuplicatedTagError" in unparse(g.nodes[true_succ[0]].ast)
-        key_local = _local_assigned(setf, lambda v: isinstance(v, ast.Call) and unparse(v.func) == "str" and len(v.args) == 1) or "t"
-        canon = re.sub(rf"\b{re.escape(key_local)}\b", "K", unparse(g.nodes[t].ast)).replace(" ", "")
-        shape = canon in ("notreplaceandKinself.tags", "Kinself.tagsandnotreplace", "notreplaceandKinself.tags.keys()")
-        # every path to the store passes the duplicate test (false edge) or the class test (true edge)
-        seen = {g.entry}
-        todo = [g.entry]
-        while todo:
-            n = todo.pop()
-            for d, lab in g.succs(n, exc=False):
-                if (n in dup_tests and lab == "false") or (n in cls_tests and lab == "true"):
-                    continue
-                if d not in seen:
-                    seen.add(d)
-                    todo.append(d)
-        ok = raises_dup and shape and store not in seen
+    key_local = _local_assigned(setf, lambda v: isinstance(v, ast.Call) and unparse(v.func) == "str" and len(v.args) == 1) or "t"
+    K = re.escape(key_local)
+    present = rf"({K} in self\.tags(\.keys\(\))?|self\.tags\.get\({K}\) is not None)"
+    absent = rf"({K} not in self\.tags(\.keys\(\))?|self\.tags\.get\({K}\) is None)"
+
+    def _establishes(t_ast, lab):
+        """leaving this test this way means: replace was requested, or the key is absent, or the value is a class marker"""
+        fs_ = facts(t_ast, lab == "true")
+        if any((tv and (a == "replace" or re.fullmatch(absent, a) or re.fullmatch(r"_isclass\(\w+\)", a))) or ((not tv) and re.fullmatch(present, a)) for a, tv in fs_):
+            return True
+        # the false edge of `not replace and <present>` (either order) / the true edge of `replace or <absent>`
+        if isinstance(t_ast, ast.BoolOp):
+            parts = [unparse(v) for v in t_ast.values]
+            if lab == "false" and isinstance(t_ast.op, ast.And) and all(p_ == "not replace" or re.fullmatch(present, p_) for p_ in parts):
+                return True
+            if lab == "true" and isinstance(t_ast.op, ast.Or) and all(p_ == "replace" or re.fullmatch(absent, p_) for p_ in parts):
+                return True
+        return False
+    est = {(n.id, lab) for n in g.nodes if n.kind == "test" for lab in ("true", "false") if _establishes(n.ast, lab)}
+    from sa.guards import unprotected_path as _unprot
+    leak = None
+    for st_ in stores:
+        w_ = _unprot(g, st_, [], est, exc=False)
+        leak = leak or w_
+    # the refusal is the library's duplicate error: a raise of DuplicatedTagError under `not replace` and <present>
+    raises_dup = False
+    for n in g.nodes:
+        if n.kind == "stmt" and isinstance(n.ast, ast.Raise) and "DuplicatedTagError" in unparse(n.ast):
+            fr_ = set()
+            for t_, lab_ in g.guards(n.id, exc=False):
+                fr_ |= facts(t_, lab_ == "true")
+            if any(tv and re.fullmatch(present, a) for a, tv in fr_) and (("replace", False) in fr_ or ("not replace", True) in fr_):
+                raises_dup = True
+    ok = raises_dup and leak is None and bool(est)
     ctx.instance("C18.duplicate-rule", "set[store guarded]", ok,
                  "set() can overwrite an existing tag without replace=True (the duplicate test no longer guards the store, or no longer raises DuplicatedTagError)", loc(setf))
     ag = methods["add_group"]
@@ -257,38 +270,27 @@ def run(ctx):
     ctx.instance("C18.duplicate-rule", "add_group[existing tag must be a group]", exists_branch_ok,
                  "add_group() on an existing tag does not check that it holds a group before appending: a plain tag yields AttributeError instead of the library's message error", loc(ag))
     # stored as string
-    conv = [n.id for n in g.nodes if n.kind == "stmt" and isinstance(n.ast, ast.Assign) and unparse(n.ast) in ("value = str(value)",)]
-    seen = {g.entry}
-    todo = [g.entry]
-    while todo:
-        n = todo.pop()
-        for d, lab in g.succs(n, exc=False):
-            if d in conv or (n in cls_tests and lab == "true"):
-                continue
-            if d not in seen:
-                seen.add(d)
-                todo.append(d)
-    val_ok = bool(conv) and store not in seen and unparse(g.nodes[store].ast.value) == "value"
-    if not val_ok:
-        # by value: what is stored is str(<value parameter>) - or the parameter itself where it is known to be a class - on every path,
-        # directly or through a local
-        vparam = setf.args.args[2].arg if len(setf.args.args) > 2 else "value"
-        rds = reaching_defs(g, exc=False)
-        sv = g.nodes[store].ast.value
+    # by value: what is stored is str(<value parameter>) - or the parameter itself where it is known to be a class - at every store,
+    # on every path, directly or through a local
+    vparam = setf.args.args[2].arg if len(setf.args.args) > 2 else "value"
+    rds = reaching_defs(g, exc=False)
 
-        def as_stored(e, at, depth=0):
-            if unparse(e) == f"str({vparam})":
+    def as_stored(e, at, depth=0):
+        if unparse(e) == f"str({vparam})":
+            return True
+        if unparse(e) == vparam:
+            fs_ = set()
+            for t_, lab_ in g.guards(at, exc=False):
+                fs_ |= facts(t_, lab_ == "true")
+            if any(tv and re.fullmatch(r"(_isclass|inspect\.isclass|\w+\._isclass)\(" + re.escape(vparam) + r"\)", a) for a, tv in fs_):
                 return True
-            if unparse(e) == vparam:
-                fs_ = set()
-                for t_, lab_ in g.guards(at, exc=False):
-                    fs_ |= facts(t_, lab_ == "true")
-                return any(tv and re.fullmatch(r"(_isclass|inspect\.isclass|\w+\._isclass)\(" + re.escape(vparam) + r"\)", a) for a, tv in fs_)
-            if isinstance(e, ast.Name) and depth < 3:
-                ds = rds[at].get(e.id, set())
-                return bool(ds) and all(getattr(g.nodes[d].ast, "value", None) is not None and as_stored(g.nodes[d].ast.value, d, depth + 1) for d in ds)
-            return False
-        val_ok = as_stored(sv, store)
+        if isinstance(e, ast.Name) and depth < 3:
+            ds = rds[at].get(e.id, set())
+            if e.id in [a_.arg for a_ in setf.args.args] and g.witness_path(g.entry, [at], avoid=ds, exc=False) is not None:
+                return False  # the parameter as given reaches this point on a path that passes none of its re-definitions
+            return bool(ds) and all(getattr(g.nodes[d].ast, "value", None) is not None and as_stored(g.nodes[d].ast.value, d, depth + 1) for d in ds)
+        return False
+    val_ok = all(as_stored(g.nodes[st_].ast.value, st_) for st_ in stores)
     ctx.instance("C18.stored-as-string", "set[value := str(value)]", val_ok,
                  "a non-class value can reach the store without str(value): what is read back is not the string form of what was written (e.g. str-subclass enums)", loc(setf))
     dels = [n for n in walk_no_nested(setf) if isinstance(n, ast.Delete) or (isinstance(n, ast.Call) and isinstance(n.func, ast.Attribute)
